@@ -140,6 +140,10 @@ bool PedersenTrapdoorCommitmentScheme::CheckGroup
 			(mpz_sizeinbase(q, 2L) < G_size))
 				throw false;
 		
+		// The order of the subgroup is a positive number.
+		if (mpz_cmp_ui(q, 0L) <= 0)
+			throw false;
+		
 		// Check whether $p$ has the correct form, i.e. $p = kq + 1$.
 		mpz_mul(foo, q, k);
 		mpz_add_ui(foo, foo, 1L);
@@ -343,7 +347,7 @@ bool JareckiLysyanskayaRVSS::CheckGroup
 		// Compute $k := (p - 1) / q$
 		mpz_set(k, p);
 		mpz_sub_ui(k, k, 1L);
-		if (!mpz_cmp_ui(q, 0L))
+		if (mpz_cmp_ui(q, 0L) <= 0)
 			throw false;
 		mpz_div(k, k, q);
 
